@@ -208,7 +208,7 @@ def documented_required(cfg, has_score):
     evaluation is well defined without an action set)."""
     learn, ev = cfg["learn"], cfg["eval"]
     req = []
-    if need_pred_mode(learn, ev, has_score):
+    if need_pred(cfg, has_score):
         req.append("actions")
     if learn == "on" or ev == "on":
         req.append("rewards")
@@ -237,83 +237,358 @@ def ips_reward(d, a):
     return v if cn(a) == cn(mk(d["action"])) else 0
 
 
-def script_entry(L, k):
-    return L["script"][k % len(L["script"])]
+def uncanon(c):
+    """canonical form -> a python value that is == to the original"""
+    if c is None:
+        return None
+    t = c[0]
+    if t == "q":
+        q = Fraction(c[1], c[2])
+        return int(q) if q.denominator == 1 else float(q)
+    if t == "s":
+        return c[1]
+    if t == "l":
+        return tuple(uncanon(x) for x in c[1])
+    if t == "d":
+        return {k: uncanon(v) for k, v in c[1]}
+    raise ValueError(c)
 
 
-def spec_py(case):
-    """documented behaviour: ('error', missing) or ('ok', calls, rows) with rows as dicts of demanded cells"""
-    cfg, L = case["cfg"], case["learner"]
-    inters = case["env"]["inters"]
-    if not inters:
-        return {"kind": "ok", "calls": [], "rows": []}
+def known_gap(key, cfg, has_score):
+    """requirements the docstring states but `_required` does not enforce (recorded findings): returns a suffix"""
+    if key == "probability":
+        return ""
+    if key == "actions" and not need_pred_mode(cfg["learn"], cfg["eval"], has_score):
+        return ":record-forced-predict"
+    return None
+
+
+def exc_class(case, impl):
+    """narrow signature of an exception raised on an environment that has every documented field"""
+    cfg, env = case["cfg"], case["env"]
+    msg, exc = impl.get("msg", ""), impl["exc"]
+    first = idict(env["inters"][0])
+    batched = bool(env.get("batch"))
+    if exc == "UnboundLocalError" and "learn_time" in msg and "time" in cfg["record"] and not cfg["learn"]:
+        return "raises:UnboundLocalError:learn_time:time-without-learn"
+    if exc == "TypeError" and "has no len()" in msg and batched and cfg["learn"] in ("off", None) and not cfg["eval"]:
+        return "raises:TypeError:none-len:batched-without-reward-mode"
+    absent = ("context" not in first) or ("probability" not in first and cfg["learn"] == "off") or ("actions" not in first)
+    if exc == "TypeError" and batched and absent and ("'NoneType' object is not iterable" in msg or "'NoneType' object is not subscriptable" in msg):
+        return "raises:TypeError:none-arg:batched-absent-field"
+    return "raises:%s:%s" % (exc, "".join(ch if ch.isalnum() else "-" for ch in msg[:40]))
+
+
+def monitor(case, impl):
+    """(B) the property evaluated directly on what the real code did.  Returns (fails, tags)."""
+    fails, tags = [], []
+    cfg, L, env = case["cfg"], case["learner"], case["env"]
+    inters = env["inters"]
+    learn, ev, rec = cfg["learn"], cfg["eval"], cfg["record"]
     has_score = L["has_score"]
+    mode = "learn=%s,eval=%s" % (learn, ev)
+    calls = impl["calls"]
+    if not inters:
+        tags.append("empty-env")
+        if impl["exc"] or calls or impl["rows"]:
+            fails.append(F("B", "empty environment: expected no calls and no rows, got exc=%s calls=%d rows=%s" % (impl["exc"], len(calls), impl["rows"]), "empty-env-output"))
+        return fails, tags
     first = idict(inters[0])
     missing = [k for k in documented_required(cfg, has_score) if k not in first]
     if missing:
-        return {"kind": "error", "missing": missing}
-    learn, ev, rec = cfg["learn"], cfg["eval"], cfg["record"]
+        tags.append("reject:" + "+".join(missing))
+        upfront = impl["exc"] is not None and not calls
+        if not upfront:
+            strict = [k for k in missing if known_gap(k, cfg, has_score) is None]
+            for k in (strict or missing):
+                gap = known_gap(k, cfg, has_score)
+                fails.append(F("B", "SequentialCB(learn=%r,eval=%r,record=%r) on an environment without %r (documented as required) was not rejected before the learner was used: exc=%s, learner calls=%d, rows=%s"
+                               % (learn, ev, rec, k, impl["exc"], len(calls), "none" if impl["rows"] is None else len(impl["rows"])),
+                               "not-rejected-upfront:missing=%s%s" % (k, gap or "")))
+        return fails, tags
+    if impl["exc"]:
+        sig = exc_class(case, impl)
+        tags.append("exc:" + impl["exc"])
+        fails.append(F("B", "SequentialCB(learn=%r,eval=%r,record=%r) raised %s(%s) on an environment that has every field the mode needs (batch=%s, learner batch_mode=%s)"
+                       % (learn, ev, rec, impl["exc"], impl.get("msg", "")[:120], env.get("batch"), L.get("batch_mode")), sig))
+        return fails, tags
+
     np_ = need_pred(cfg, has_score)
-    bs = case["env"].get("batch") or 1
-    calls, rows = [], []
-    kpred = kscore = 0
+    sb = ev == "ips" and has_score and not np_
+    batched = bool(env.get("batch"))
+    bs = env.get("batch") or 1
+    pos = 0
+    exp_rows = []
+
+    def bad(what, sig):
+        fails.append(F("B", what, sig))
+
     for lo in range(0, len(inters), bs):
         chunk = inters[lo:lo + bs]
-        preds, learns = [], []
-        info = []
-        for pairs in chunk:
+        rets = [None] * len(chunk)
+        scs = [None] * len(chunk)
+        for r, pairs in enumerate(chunk):
             d = idict(pairs)
-            ctx = mk(d.get("context"))
-            acts = mk(d["actions"]) if "actions" in d else None
-            row = {}
-            a = p = kw = None
-            if np_:
-                e = script_entry(L, kpred)
-                kpred += 1
-                a = acts[e["idx"] % len(acts)] if acts else mk(e["free"])
-                p = None if (e.get("p") is None or L["fmt"] in ("A", "AK", "dA", "dAK")) else e["p"][0] / e["p"][1]
-                kw = {k: mk(e["kw"][k]) for k in L.get("kw_keys", ())} if L["fmt"].endswith("K") else {}
-                preds.append({"m": "predict", "ctx": cn(ctx), "acts": cn(acts)})
+            ctx = cn(mk(d.get("context")))
+            acts = cn(mk(d["actions"])) if "actions" in d else None
+            if np_ or sb:
+                want = "predict" if np_ else "score"
+                c = calls[pos] if pos < len(calls) else None
+                if c is None or c["m"] != want:
+                    bad("interaction %d: expected a %s call, the learner saw %s (%s)" % (lo + r, want, c and c["m"], mode), "trace:missing-%s:%s" % (want, mode))
+                    return fails, tags
+                if not ceq(c["ctx"], ctx):
+                    bad("interaction %d: %s received context %s, the environment has %s" % (lo + r, want, c["ctx"], ctx), "trace:%s-context" % want)
+                if not ceq(c["acts"], acts):
+                    bad("interaction %d: %s received actions %s, the environment has %s" % (lo + r, want, c["acts"], acts), "trace:%s-actions" % want)
+                if sb:
+                    if not ceq(c["a"], cn(mk(d["action"]))):
+                        bad("interaction %d: score received action %s, logged action is %s" % (lo + r, c["a"], cn(mk(d["action"]))), "trace:score-action")
+                    scs[r] = c["ret"]
+                else:
+                    rets[r] = c["ret"]
+                pos += 1
+        n_predicts = sum(1 for c in calls if c["m"] == "predict")
+        if np_ and batched and lo == 0 and n_predicts == len(inters) + 1 and pos < len(calls) and calls[pos]["m"] == "predict":
+            d0 = idict(chunk[0])
+            if ceq(calls[pos]["ctx"], cn(mk(d0.get("context")))) and ceq(calls[pos]["acts"], cn(mk(d0["actions"])) if "actions" in d0 else None):
+                bad("batched evaluation: the learner saw a second predict for the first interaction (SafeLearner probes the orientation of the "
+                    "first batch prediction when batch size == len(prediction row)); the property allows one predict per interaction",
+                    "trace:extra-predict:batched-orientation-probe")
+                tags.append("probe")
+                pos += 1
+        for r, pairs in enumerate(chunk):
+            d = idict(pairs)
+            ctx = cn(mk(d.get("context")))
+            ret = rets[r]
+            a_py = uncanon(ret["a"]) if ret else None
+            er = None
             if ev:
                 if ev == "on":
-                    er = env_reward(inters[0], pairs, a)
+                    er = cn(env_reward(inters[0], pairs, a_py))
                 elif np_:
-                    er = ips_reward(d, a)
+                    er = cn(ips_reward(d, a_py))
                 else:
-                    e = script_entry(L, kscore)
-                    kscore += 1
-                    s = e.get("s", [1, 2])
-                    preds.append({"m": "score", "ctx": cn(ctx), "acts": cn(acts), "a": cn(mk(d["action"]))})
-                    er = (s[0] / s[1]) * ips_reward(d, mk(d["action"]))
-                if "reward" in rec:
-                    row["reward"] = cn(er)
-                if "action" in rec:
-                    row["action"] = cn(a)
-                if "probability" in rec and p is not None:
-                    row["probability"] = cn(p)
-            if learn == "off":
-                learns.append({"m": "learn", "ctx": cn(ctx), "a": cn(mk(d["action"])), "r": cn(mk(d["reward"])),
-                               "p": cn(mk(d.get("probability"))), "kw": cn({})})
-            elif learn:
-                lr = env_reward(inters[0], pairs, a) if learn == "on" else ips_reward(d, a)
-                learns.append({"m": "learn", "ctx": cn(ctx), "a": cn(a), "r": cn(lr), "p": cn(p), "kw": cn(kw)})
+                    er = cn(float(Fraction(scs[r][1], scs[r][2])) * ips_reward(d, mk(d["action"])))
+            row = {}
+            if ev and "reward" in rec:
+                row["reward"] = er
+            if ev and "action" in rec:
+                row["action"] = ret["a"]
+            if ev and "probability" in rec:
+                row["probability"] = ret["p"]
+            if learn:
+                if learn == "off":
+                    want = {"ctx": ctx, "a": cn(mk(d["action"])), "r": cn(mk(d["reward"])), "p": cn(mk(d.get("probability"))), "kw": cn({})}
+                else:
+                    lr = env_reward(inters[0], pairs, a_py) if learn == "on" else ips_reward(d, a_py)
+                    want = {"ctx": ctx, "a": ret["a"], "r": cn(lr), "p": ret["p"], "kw": ret["kw"]}
+                c = calls[pos] if pos < len(calls) else None
+                if c is None or c["m"] != "learn":
+                    bad("interaction %d: expected a learn call, the learner saw %s (%s)" % (lo + r, c and c["m"], mode), "trace:missing-learn:%s" % mode)
+                    return fails, tags
+                names = {"ctx": "context", "a": "action", "r": "reward", "p": "probability", "kw": "kwargs"}
+                for k in ("ctx", "a", "r", "p", "kw"):
+                    if not ceq(c[k], want[k]):
+                        bad("interaction %d (%s): learn received %s=%s, the property demands %s" % (lo + r, mode, names[k], c[k], want[k]),
+                            "trace:learn-%s:learn=%s" % (names[k], learn))
+                pos += 1
             if "context" in rec:
-                row["context"] = cn(ctx)
+                row["context"] = ctx
             if "actions" in rec and "actions" in d:
-                row["actions"] = cn(acts)
-            if "rewards" in rec and "rewards" in d and acts:
-                row["rewards"] = cn([env_reward(inters[0], pairs, x) for x in acts])
+                row["actions"] = cn(mk(d["actions"]))
+            if "rewards" in rec and "rewards" in d and "actions" in first and mk(first["actions"]):
+                row["rewards"] = cn([env_reward(inters[0], pairs, x) for x in mk(d["actions"])])
             for k, v in pairs:
                 if k not in RESERVED:
                     row[k] = cn(mk(v))
-            rows.append(row)
-        calls += preds + learns
-    # unbatched order is predict_i, learn_i; with chunks of one the two coincide
-    return {"kind": "ok", "calls": calls, "rows": rows}
+            exp_rows.append(row)
+    if pos < len(calls):
+        bad("the learner saw %d call(s) the property does not allow, first: %s (%s)" % (len(calls) - pos, strip_call(calls[pos]), mode),
+            "trace:extra-call:%s:%s" % (calls[pos]["m"], mode))
+
+    # rows
+    rows = impl["rows"]
+    demanded = [{k: v for k, v in r.items() if not (k == "probability" and v is None)} for r in exp_rows]
+    plain = batched and all(set(r) <= {"action", "probability", "rewards"} for r in demanded)   # cells that are plain lists in a batch
+    rsig = ":batched-plain-list-cells" if plain else (":batched" if batched else "")
+    row_fails = []
+
+    def rbad(what, sig):
+        row_fails.append(F("B", what, sig))
+
+    if any(demanded) and len(rows) != len(demanded):
+        rbad("%d interactions but %d rows (record=%r, %s, batch=%s)" % (len(demanded), len(rows), rec, mode, env.get("batch")), "rows:count" + rsig)
+    else:
+        for i, (row, e) in enumerate(zip(rows, demanded)):
+            rd = dict(row)
+            for k, v in e.items():
+                if k not in rd:
+                    rbad("row %d lacks %r (record=%r, %s)" % (i, k, rec, mode), "rows:missing:%s%s" % (k if k in RESERVED else "extra-field", rsig))
+                elif not ceq(rd[k], v):
+                    kind = k if k in RESERVED else "extra-field"
+                    rbad("row %d: %r is %s, the property demands %s (%s)" % (i, k, rd[k], v, mode), "rows:value:%s%s%s" % (kind, (":eval=%s" % ev) if k == "reward" else "", rsig))
+            if ev and "probability" in rec and exp_rows[i].get("probability") is None and rd.get("probability") is not None:
+                rbad("row %d records probability %s although the learner returned none" % (i, rd.get("probability")), "rows:value:probability-invented" + rsig)
+    if plain and row_fails:
+        # one class: a batch row none of whose cells is a Batch.List is never un-batched
+        row_fails = [F("B", "batched evaluation, record=%r: rows are not one per interaction with that interaction's values (%s) -- e.g. %s"
+                       % (rec, mode, row_fails[0]["what"]), "rows:batched-plain-list-cells")]
+    fails += row_fails
+    return fails, tags
 
 
 def strip_call(c):
     return {k: v for k, v in c.items() if k in ("m", "ctx", "acts", "a", "r", "p", "kw")}
+
+
+# ------------------------------------------------------------------ (A) the Lean model's view of a case
+def vstr(x):
+    return json.dumps(cn(x), separators=(",", ":"), sort_keys=True)
+
+
+def model_fld(key, v, domain):
+    if key == "rewards":
+        if isinstance(v, dict) and "rfn" in v:
+            tbl = []
+            for a in domain:
+                try:
+                    tbl.append([vstr(a), cnum(fr(rfn_value(v["rfn"], a)))[1:]])
+                except Exception:
+                    pass
+            return {"t": "rfn", "name": v["rfn"]["kind"], "tbl": tbl, "dflt": [0, 1]}
+        return {"t": "rlist", "v": [cnum(fr(mk(x)))[1:] for x in v["l"]]}
+    if key == "actions":
+        return {"t": "none"} if v is None else {"t": "acts", "v": [vstr(mk(a)) for a in v["l"]]}
+    if key in ("reward", "probability"):
+        x = mk(v)
+        return {"t": "none"} if x is None else {"t": "num", "v": cnum(fr(x))[1:]}
+    x = mk(v)
+    return {"t": "none"} if x is None else {"t": "val", "v": vstr(x)}
+
+
+def model_request(case):
+    cfg, L, env = case["cfg"], case["learner"], case["env"]
+    frees = [mk(e.get("free")) for e in L["script"]]
+    menv = []
+    for pairs in env["inters"]:
+        d = idict(pairs)
+        domain = list(mk(d["actions"]) or []) if "actions" in d else []
+        domain += frees
+        if "action" in d:
+            domain.append(mk(d["action"]))
+        menv.append([[k, model_fld(k, v, domain)] for k, v in pairs])
+    has_p = L["fmt"] in ("AP", "APK", "dAP", "dAPK")
+    has_k = L["fmt"].endswith("K")
+    script = [{"idx": e["idx"], "free": vstr(mk(e.get("free"))), "p": e.get("p") if has_p else None,
+               "kw": [[k, vstr(mk(e["kw"][k]))] for k in L.get("kw_keys", ())] if has_k else [], "s": e.get("s", [1, 2])} for e in L["script"]]
+    return {"cfg": {"learn": cfg["learn"], "eval": cfg["eval"], "record": cfg["record"]}, "batch": env.get("batch"),
+            "env": menv, "learner": {"has_score": L["has_score"], "script": script}}
+
+
+def mval(sv):
+    return None if sv is None else json.loads(sv)
+
+
+def mrat(q):
+    return None if q is None else cnum(Fraction(q[0], q[1]))
+
+
+def model_call(c):
+    out = {"m": c["m"], "ctx": mval(c["ctx"])}
+    if c["m"] in ("predict", "score"):
+        out["acts"] = None if c["acts"] is None else ["l", [mval(a) for a in c["acts"]]]
+    if c["m"] == "score":
+        out["a"] = mval(c["a"])
+    if c["m"] == "learn":
+        out.update(a=mval(c["a"]), r=mrat(c["r"]), p=mrat(c["p"]), kw=["d", sorted([[k, mval(v)] for k, v in c["kw"]], key=lambda kv: kv[0])])
+    return out
+
+
+def model_cell(c):
+    t = c["t"]
+    if t in ("oval", "val"):
+        return mval(c.get("v"))
+    if t == "none":
+        return None
+    if t == "oacts":
+        return None if c["v"] is None else ["l", [mval(a) for a in c["v"]]]
+    if t == "acts":
+        return ["l", [mval(a) for a in c["v"]]]
+    if t in ("onum", "num"):
+        return mrat(c["v"])
+    if t in ("nums", "rlist"):
+        return ["l", [mrat(q) for q in c["v"]]]
+    if t == "fn":
+        return ["fn"]
+    raise ValueError(c)
+
+
+def model_row(r):
+    cells = [[k, model_cell(c)] for k, c in r]
+    return sorted([kv for kv in cells if not (kv[0] == "probability" and kv[1] is None)], key=lambda kv: kv[0])
+
+
+def impl_row_for_A(r):
+    out = []
+    for k, v in r:
+        if k == "probability" and v is None:
+            continue
+        if isinstance(v, list) and v and v[0] == "fn":
+            v = ["fn"]
+        out.append([k, v])
+    return out
+
+
+def compare_A(case, impl, ans):
+    """implementation vs model on the observable (exception class, call trace, rows without timing)"""
+    import re
+    fails = []
+    m = ans["model"]
+    mode = "learn=%s,eval=%s" % (case["cfg"]["learn"], case["cfg"]["eval"])
+    if m["kind"] == "error":
+        if m["err"] == "missing":
+            got = None
+            if impl["exc"] == "CobaException" and "requires" in impl.get("msg", ""):
+                got = sorted(re.findall(r"'(\w+)'", impl["msg"].split("requires", 1)[1]))
+            gaps = {k for k in RESERVED if known_gap(k, case["cfg"], case["learner"]["has_score"]) is not None}
+            if got is None or set(got) - gaps != set(m["missing"]) - gaps:
+                fails.append(F("A", "model: validation rejects with missing keys %s; implementation: exc=%s %s" % (sorted(m["missing"]), impl["exc"], impl.get("msg", "")[:100]), "A:validate"))
+        elif impl["exc"] is None:
+            fails.append(F("A", "model raises %s, implementation returned rows" % m["err"], "A:model-error"))
+        return fails
+    if impl["exc"]:
+        fails.append(F("A", "implementation raised %s(%s), model evaluates (%s)" % (impl["exc"], impl.get("msg", "")[:100], mode), "A:exception"))
+        return fails
+    got = [strip_call(c) for c in impl["calls"]]
+    exp = [model_call(c) for c in m["calls"]]
+    if len(got) != len(exp):
+        fails.append(F("A", "call trace length: implementation %d, model %d (%s)" % (len(got), len(exp), mode), "A:trace-length"))
+    else:
+        for i, (g, e) in enumerate(zip(got, exp)):
+            if set(g) != set(e) or not all(ceq(g[k], e[k]) for k in e):
+                fails.append(F("A", "call #%d: implementation %s, model %s (%s)" % (i, json.dumps(g)[:200], json.dumps(e)[:200], mode), "A:trace:" + e["m"]))
+                break
+    rows = [r for r in (impl_row_for_A(r) for r in impl["rows"]) if r]     # a row holding only timing columns is empty here
+    mrows = [r for r in (model_row(r) for r in m["rows"]) if r]
+    if len(rows) != len(mrows):
+        fails.append(F("A", "row count: implementation %d, model %d (%s)" % (len(rows), len(mrows), mode), "A:rows-count"))
+    else:
+        for i, (g, e) in enumerate(zip(rows, mrows)):
+            if [k for k, _ in g] != [k for k, _ in e] or not all(ceq(x[1], y[1]) for x, y in zip(g, e)):
+                fails.append(F("A", "row %d: implementation %s, model %s (%s)" % (i, json.dumps(g)[:200], json.dumps(e)[:200], mode), "A:rows"))
+                break
+    return fails
+
+
+def compare_C(ans):
+    """model |= spec whenever the refinement theorem's hypotheses hold (plumbing guard)"""
+    if not ans.get("hyp"):
+        return []
+    u, sp = ans["unbatched"], ans["spec"]
+    if sp is None or u != sp:
+        return [F("C", "hypotheses of trace_eq_spec/rows_eq_spec hold but model %s != spec %s" % (json.dumps(u)[:200], json.dumps(sp)[:200]), "C:refinement")]
+    return []
 
 
 # ------------------------------------------------------------------ generators
@@ -544,3 +819,178 @@ def gen_case(rng, tier="quick", boundary=False):
                        "kw": {k: gen_any(rng, 1) for k in kw_keys}, "s": rng.choice([[1, 2], [1, 4], [1, 1], [0, 1], [3, 4]])})
     L = {"fmt": fmt, "has_score": has_score, "batch_mode": rng.choice(["aware", "unaware"]), "kw_keys": kw_keys, "script": script}
     return {"cfg": cfg, "env": env, "learner": L}
+
+
+# ------------------------------------------------------------------ the property
+def corpus_cases():
+    """boundary cases + minimised past failures (run first on every check)"""
+    def L(fmt="AP", has_score=False, bm="aware", kw=(), script=None):
+        return {"fmt": fmt, "has_score": has_score, "batch_mode": bm, "kw_keys": list(kw),
+                "script": script or [{"idx": 1, "free": 3, "p": [1, 4], "kw": {k: "v" for k in kw}, "s": [1, 2]},
+                                     {"idx": 0, "free": {"f": [3, 2]}, "p": [1, 2], "kw": {k: 7 for k in kw}, "s": [1, 4]}]}
+    sim = [[["context", 1], ["actions", {"l": [0, 1, 2]}], ["rewards", {"l": [{"f": [1, 2]}, {"f": [1, 4]}, 1]}], ["L", "a"]],
+           [["context", 2], ["actions", {"l": [3, 4]}], ["rewards", {"l": [1, 2]}], ["L", {"l": [1, 2]}]],
+           [["context", None], ["actions", {"l": [5, 6, 7]}], ["rewards", {"l": [0, 0, 3]}], ["L", None]]]
+    log = [[["context", {"d": [["a", 1]]}], ["action", 2], ["reward", 3], ["probability", {"f": [1, 4]}], ["actions", {"l": [2, 5, 8]}]],
+           [["context", {"d": [["b", 2]]}], ["action", 6], ["reward", 4], ["probability", {"f": [1, 2]}], ["actions", {"l": [3, 6, 9]}]],
+           [["context", {"d": []}], ["action", 4], ["reward", 5], ["probability", 1], ["actions", {"l": [4, 7, 0]}]]]
+    lognp = [[kv for kv in p if kv[0] != "probability"] for p in log]
+    logna = [[kv for kv in p if kv[0] != "actions"] for p in log]
+    both = [s + [kv for kv in l if kv[0] in ("action", "reward", "probability")] for s, l in zip(sim, log)]
+    noctx = [[kv for kv in p if kv[0] != "context"] for p in both]
+    cont = [[["context", {"t": [1, 2]}], ["actions", {"l": []}], ["rewards", {"rfn": {"kind": "L1", "argmax": 1}}]],
+            [["context", {"t": [3, 4]}], ["actions", {"l": []}], ["rewards", {"rfn": {"kind": "L1", "argmax": {"f": [5, 2]}}}]]]
+    allrec = list(RECORD_ALL)
+    dflt = ["reward", "action", "probability"]
+    cs = []
+
+    def add(learn, ev, rec, inters, batch=None, **lk):
+        cs.append({"cfg": {"learn": learn, "eval": ev, "record": rec}, "env": {"batch": batch, "gen": False, "inters": inters}, "learner": L(**lk)})
+    for learn in ("on", "off", "ips", None):
+        for ev in ("on", "ips", None):
+            add(learn, ev, dflt, both)
+            add(learn, ev, allrec, both, fmt="APK", kw=("i",))
+            add(learn, ev, dflt, both, batch=2, bm="unaware")
+            add(learn, ev, ["reward"], both, batch=3, fmt="dAP")
+            add(learn, ev, dflt, both, has_score=True)
+    add("on", "on", dflt, sim)
+    add("on", "on", ["time"], sim)
+    add(None, "on", ["time", "reward"], sim)                      # learn_time without learn
+    add("off", None, [], logna, batch=2)                          # batched, no reward object
+    add(None, None, ["context"], both, batch=2)
+    add("on", "on", ["action"], sim, batch=2, fmt="dAP")          # rows with plain-list cells only
+    add("on", "on", ["action", "probability"], sim, batch=1, fmt="dAP")
+    add("on", "on", ["rewards"], [p[:3] for p in sim], batch=3, fmt="dAP")
+    add("on", "on", dflt, noctx, batch=2, bm="unaware", fmt="dAP")  # absent context, per-row fallback
+    add("off", "on", dflt, [[kv for kv in p if kv[0] != "probability"] for p in both], batch=2, bm="unaware", fmt="dAP")
+    add("on", "on", dflt, sim, batch=2, fmt="AP")                 # orientation probe
+    add("ips", None, dflt, lognp)                                 # ips without probability
+    add(None, "ips", ["reward"], lognp, has_score=True)
+    add("off", "ips", dflt, logna, has_score=True, fmt="dA")      # record forces a predict without actions
+    add(None, "ips", ["reward"], logna, has_score=True)           # score-based, no actions needed
+    add("on", "on", dflt, cont, fmt="dAP")
+    add("on", "on", allrec, cont, fmt="dA", batch=2)
+    add("on", "on", dflt, [])
+    add("on", "on", dflt, [p[:2] for p in sim])                   # no rewards -> rejected
+    add("off", "on", dflt, sim)                                   # no logged fields -> rejected
+    add("ips", "ips", dflt, [[kv for kv in p if kv[0] != "reward"] for p in log])
+    return cs
+
+
+class C06(Property):
+    id = "C06"
+    prop_modules = ["CobaVerif.Props.C06"]
+    quick_n = 1500
+    thorough_n = 40000
+    search_n = 2500
+    case_timeout = 60
+    workers = 8
+    rule = ("random finite environments (0-7 interactions; context none/scalar/str/dense/sparse or key absent; action sets of ints incl. 0/1, "
+            "floats, strings, dense tuples/lists, sparse dicts, or [] for continuous; sequence or functional rewards (L1, Binary, Discrete x2, "
+            "Hamming, plain callable); logged action/reward/probability present or absent; 0-3 extra fields of arbitrary JSON-like values; "
+            "unbatched or Batch(1..4); list or generator read()) x learn in {on,off,ips,None} x eval in {on,ips,None} x record subsets x a scripted "
+            "recording learner (8 prediction formats, with/without score, batch-aware or not). non-trivial = at least 2 interactions and the "
+            "environment passes validation; distinct by canonical JSON of the case")
+    trusted_base = [
+        "SafeLearner's prediction-format parsing is the identity on (action, probability, kwargs) for the formats generated (C15's subject); "
+        "its 0/1 -> 0.0/1.0 action rewrite is invisible under Python ==, which is the equality used by the canonical forms",
+        "reward objects (L1/Binary/Discrete/Hamming) are tabulated by the harness's own formulas on the actions that can occur and handed to the "
+        "model as finite tables; Harden/Repr inside Finalize are identities on the generated (materialised, non-categorical) values",
+        "numbers are exact rationals of the doubles; values are dyadic so every float operation on the evaluated paths is exact, except r/p for "
+        "p in {3/4, 3/10, 1/10, 1/3} and score*r/p, compared with relative tolerance 1e-12",
+        "a batch-level learner call is read as its rows in order (batch-aware recorder) or is replaced by per-row calls by SafeLearner (batch-unaware recorder)",
+    ]
+    assumptions = ["modes dr/dm and record 'ope_loss' need vowpalwabbit (excluded by the property)",
+                   "environments are homogeneous (every interaction has the keys of the first) and action sets have no duplicates under ==",
+                   "extra field names are disjoint from coba's reserved names (context, actions, rewards, action, reward, probability, feedbacks, "
+                   "learn_rewards, eval_rewards, predict_time, learn_time)",
+                   "CobaContext.learning_info is left empty by the recording learner"]
+    partial_theorems = {"validate_iff_missing_partial": "the code does not require 'probability' in the ips modes although the docstring does (finding C06-F1, "
+                        "pinned by test_off_ips_actions_no_prob); witness validate_counterexample"}
+
+    def corpus(self):
+        return corpus_cases()
+
+    def generate(self, rng, tier):
+        return gen_case(rng, tier)
+
+    def search(self, rng, tier):
+        return gen_case(rng, tier, boundary=True)
+
+    def evaluate(self, case, driver):
+        impl = run_impl(case)
+        again = None
+        fails, tags = monitor(case, impl)
+        cfg, env, L = case["cfg"], case["env"], case["learner"]
+        tags += ["learn:%s" % cfg["learn"], "eval:%s" % cfg["eval"], "batch:%s" % (env.get("batch") or 0), "n:%d" % min(len(env["inters"]), 5),
+                 "fmt:" + L["fmt"], "score:%s" % L["has_score"], "bm:" + L.get("batch_mode", "aware")]
+        tags += ["rec:" + r for r in cfg["record"]]
+        if env["inters"]:
+            d = idict(env["inters"][0])
+            tags.append("keys:" + "".join(k[0].upper() if k in d else "-" for k in ("context", "actions", "rewards", "action", "reward", "probability")))
+            if "rewards" in d:
+                tags.append("rewards:" + (d["rewards"]["rfn"]["kind"] if "rfn" in d["rewards"] else "list"))
+            tags.append("extras:%d" % len([k for k in d if k not in RESERVED]))
+        if impl["exc"]:
+            tags.append("raised:" + impl["exc"])
+        model = None
+        if driver is not None:
+            ans = driver.ask(model_request(case))
+            model = ans["model"]
+            gap_only = False
+            if env["inters"]:
+                miss = [k for k in documented_required(cfg, L["has_score"]) if k not in idict(env["inters"][0])]
+                gap_only = bool(miss) and all(known_gap(k, cfg, L["has_score"]) is not None for k in miss)
+            if gap_only:
+                tags.append("A-skipped:documented-but-unenforced-requirement")
+            elif not any(f["kind"] == "B" for f in fails):
+                fails += compare_A(case, impl, ans)
+            fails += compare_C(ans)
+            if ans.get("hyp"):
+                tags.append("hyp")
+        valid = bool(env["inters"]) and not any(t.startswith("reject:") for t in tags)
+        small = {"exc": impl["exc"], "msg": impl.get("msg"), "rows": impl["rows"], "calls": [strip_call(c) for c in impl["calls"]]}
+        return {"fails": fails, "nontrivial": valid and len(env["inters"]) >= 2, "tags": tags, "impl": small, "model": model}
+
+    def shrink(self, case):
+        env, cfg, L = case["env"], case["cfg"], case["learner"]
+        inters = env["inters"]
+        for k in range(len(inters)):
+            if len(inters) > 1:
+                yield dict(case, env=dict(env, inters=inters[:k] + inters[k + 1:]))
+        if env.get("batch"):
+            yield dict(case, env=dict(env, batch=None))
+            if env["batch"] > 1:
+                yield dict(case, env=dict(env, batch=env["batch"] - 1))
+        if env.get("gen"):
+            yield dict(case, env=dict(env, gen=False))
+        for r in cfg["record"]:
+            yield dict(case, cfg=dict(cfg, record=[x for x in cfg["record"] if x != r]))
+        if inters:
+            keys = [k for k, _ in inters[0]]
+            for k in keys:
+                if k not in RESERVED or k == "context":
+                    yield dict(case, env=dict(env, inters=[[kv for kv in p if kv[0] != k] for p in inters]))
+            for k in keys:
+                if k in ("context",) or k not in RESERVED:
+                    yield dict(case, env=dict(env, inters=[[[kk, (1 if kk == k else vv)] for kk, vv in p] for p in inters]))
+        if len(L["script"]) > 1:
+            yield dict(case, learner=dict(L, script=L["script"][:1]))
+        if L["fmt"] != "dAP":
+            yield dict(case, learner=dict(L, fmt="dAP", kw_keys=[]))
+        if L.get("batch_mode") == "unaware":
+            yield dict(case, learner=dict(L, batch_mode="aware"))
+        if L["has_score"]:
+            yield dict(case, learner=dict(L, has_score=False))
+
+    def snippet(self, case):
+        return ("import sys, json; sys.path[:0] = ['/repo', '/verif/harness']\n"
+                "from props.c06 import run_impl, monitor\n"
+                "case = json.loads(%r)\n"
+                "impl = run_impl(case)   # builds the environment + recording learner and calls SafeEvaluator(SequentialCB(**cfg)).evaluate(env, learner)\n"
+                "print('exception:', impl['exc'], impl.get('msg'))\nprint('learner saw:')\n"
+                "for c in impl['calls']: print('  ', {k: v for k, v in c.items() if k in ('m','ctx','acts','a','r','p','kw')})\n"
+                "print('rows:', impl['rows'])\nprint('property monitor:', [f['what'] for f in monitor(case, impl)[0]])\n" % json.dumps(case))
+
+
+PROPERTY = C06()
